@@ -103,3 +103,23 @@ Theorem C01_scalar_programs_are_acyclic : forall p m,
   forall e, In e (m_ops m) -> forall o, In o (operands (e_op e)) -> (o < e_key e)%Z.
 Proof. exact scalar_programs_are_acyclic. Qed.
 Print Assumptions C01_scalar_programs_are_acyclic.
+
+(* ---- program level, the WHOLE surface language: scalars, arrays, tuples, n-tuples, objects, accessors,
+   map / reduce / zip / unzip / inner product, function definitions (nested ones too) and calls.
+   Whatever the program, whenever tracing and compilation succeed, every operand reference of every
+   operation — in the main table and in every function's table — points to a strictly smaller key:
+   the emitted graph is acyclic (closedness is C01_closed above). *)
+From NadaV.Proofs Require Import C01All.
+Theorem C01_all_programs_are_acyclic : forall p m,
+  run GenScalar.G p = Ok m ->
+  (forall e, In e (m_ops m) -> forall o, In o (operands (e_op e)) -> (o < e_key e)%Z)
+  /\ (forall f, In f (m_functions m) -> forall e, In e (f_ops f) -> forall o, In o (operands (e_op e)) -> (o < e_key e)%Z).
+Proof. exact (all_programs_are_acyclic GenScalar.G). Qed.
+Print Assumptions C01_all_programs_are_acyclic.
+
+(* the invariant behind it, at every point of every program: the store only grows, by entries under fresh
+   ids whose operands are older *)
+Theorem C01_tracing_is_acyclic : forall fuel ρ ss s ρ' s',
+  InvA ρ s -> exec GenScalar.G fuel ρ ss s = Ok (ρ', s') -> InvA ρ' s' /\ grow_acy s s'.
+Proof. exact (exec_acyclic GenScalar.G). Qed.
+Print Assumptions C01_tracing_is_acyclic.
